@@ -157,6 +157,28 @@ R5 = {
  "C20": "one intron per neighbouring pair; location comparison between exons of the result",
 }
 
+# Clauses added after the sixth round (DESIGN.md §10.5).
+R6 = {
+ "C01": "header text handed on verbatim; byte counts at error exits; appended letters offset by the old length",
+ "C02": "comment column parsed on every path that has one; no unbounded float-to-int in the writer; byte counts at error exits",
+ "C03": "numeric columns only through strconv; loop-carried byte subscripts compared with a length",
+ "C04": "appended letters offset by the old length; classification only of non-empty trimmed lines; header text verbatim",
+ "C05": "Start() after SetOffset(o) is o (linear-form substitution)",
+ "C06": "early success of Join only for an empty src argument; Truncate always passes the conformation reset",
+ "C07": "position-to-subscript conversion with the subscripted object's own offset; column accessors return only inside [Start, End)",
+ "C09": "unconditional emission of the last traced block",
+ "C10": "no use of the indexed sequence when enumerating another; query methods write no index state",
+ "C11": "fresh gob decode targets; lockset of the run-file list",
+ "C12": "pool placeholder test after every pool receive",
+ "C13": "fresh gob decode targets",
+ "C14": "every hit pushed to the sorter; fresh gob decode targets",
+ "C15": "sign test beside letter-code equality; mid-row formula of the trapezoid clip",
+ "C17": "constructors free of package-level mutable state; complement table filled before every success return",
+ "C18": "table fill loops without early exit; tables written by the initialiser only",
+ "C19": "condition waits in re-testing loops; rounded-up chunk size",
+ "C20": "location found only by meeting ref; transcript regions oriented Forward",
+}
+
 NOT_APPLICABLE = {
 }
 
@@ -179,6 +201,10 @@ def main():
                 tech = tech + "; " + R5[pid]
                 text = text + " Round 5 (DESIGN §10.4) adds: " + R5[pid] + "."
                 ref = ref + ", §10.4"
+            if pid in R6:
+                tech = tech + "; " + R6[pid]
+                text = text + " Round 6 (DESIGN §10.5) adds: " + R6[pid] + "."
+                ref = ref + ", §10.5"
             checks.append({
                 "property_id": pid,
                 "quick_cmd": "./check %s quick" % pid,
